@@ -81,6 +81,15 @@
 //	                  The bound is in virtual time, which only advances when every task is blocked: held peerstore
 //	                  calls and the slow-peerstore stratum cost scheduler decisions, not time, so no stratum makes it
 //	                  unsound (StallPermille is 0). A wait younger than the bound at the first check is judged at the end.
+//	identify-wait-not-released/service-closing  end-of-run variant (half of the runs): after everything else has been
+//	                  judged, 1-3 new byz connections are dialled at drawn positions while the observer closes only its
+//	                  identify service (IDService().Close(), network stays up) or the whole host (Host.Close closes the
+//	                  identify service BEFORE the network); the close starts at once, after drawn yields, or at a drawn
+//	                  I/O call of the first new connection's socket (inside its handshake / identify exchange). The
+//	                  liveness clause has no exception for a closing service: every channel IdentifyWait returned for a
+//	                  connection admitted before / during / after the close is closed within the same 15 s, both for the
+//	                  first IdentifyWait made at Connected (the service's own handler or the harness) and for one the
+//	                  harness makes after the close returned (lazy runs). Nothing else about a closed service is asserted.
 //	identify-stream-left/<dir>-<proto>  identify.DefaultTimeout is documented "for all id interactions, incoming /
 //	                  outgoing, id / id-push": RecentlyConnectedAddrTTL + 2 min after the last activity the observer holds
 //	                  no open /ipfs/id/1.0.0 or /ipfs/id/push/1.0.0 stream (either direction) on a connection to byz that is
@@ -149,6 +158,9 @@
 //	third-round seed C13c-1: pstoremem addAddrsUnlocked evaluates the per-peer cap once per batch (real patch through
 //	  VERIF_REPO) ........................................................... C13/unconnected-address-cap/single-batch
 //	  (run 176 of a 45 s / 8 worker quick run; MISSED before: no oracle looked at the unconnected cap)
+//	fourth-round seed C13d-1: IdentifyWait returns the freshly created channel without starting identify once the
+//	  service's context is cancelled (real patch through VERIF_REPO) ......... C13/identify-wait-not-released/service-closing
+//	  (run 32 of a 45 s / 8 worker quick run; MISSED before: the observer was only ever closed after every connection)
 //	Disconnected without addrMu (race) ..................................... 6/6 C13/addr-kept-after-disconnect (needs the held peerstore call)
 //	consumeMessage reads Connectedness before taking addrMu (race with a
 //	  two-decision window, nothing to hold) ................................ 1/8 workers in 50 s in two of three attempts
@@ -306,6 +318,15 @@ func (a actPlan) String() string {
 	return fmt.Sprintf("close ALL by %s %s", side, a.trig)
 }
 
+// endPlan is the end-of-run variant "the identify service goes away while connections still arrive".
+type endPlan struct {
+	kind    int   // 0 none, 1 only the identify service is closed (IDService().Close(), network stays up), 2 Host.Close()
+	dials   []int // scheduler yields before each new byz dial starts
+	closeIO int   // > 0: the close starts when the observer's socket of the FIRST new connection makes this I/O call
+	closeY  int   // else: scheduler yields before the close starts
+	resp    sendPlan
+}
+
 type plan struct {
 	sec         string
 	link        simnet.LinkMode
@@ -313,6 +334,7 @@ type plan struct {
 	bigProtos   bool // observer's peerstore accepts > 128 protocols
 	cold        bool // byz is the observer's FIRST contact: the honest peers connect only after the byzantine activity
 	lazyWait    bool // the harness calls IdentifyWait (which itself starts identify) only after the activity has been judged
+	end         endPlan
 	late        bool // template "message consumed after the last disconnect" (see drawPlan)
 	perPeer     int  // observer's peerstore is built with pstoremem.WithMaxAddressesPerPeer(perPeer)
 	muteObsPush bool // byz never answers multistream-select on the streams the observer opens after its identify request (the observer's own pushes) and keeps them open
@@ -446,6 +468,19 @@ func drawPlan(g simrt.Gen) (*plan, *world) {
 			p.acts = []actPlan{cl}
 		}
 	}
+	p.end.kind = g.Weighted(2, 1, 1)
+	if p.end.kind != 0 {
+		for i, n := 0, 1+g.Int(3); i < n; i++ {
+			p.end.dials = append(p.end.dials, g.Weighted(2, 1, 1)*g.Range(1, 60))
+		}
+		if g.Weighted(1, 2) == 1 {
+			p.end.closeIO = 1 + g.Int(maxTriggerCreation)
+		} else {
+			p.end.closeY = g.Weighted(1, 2) * g.Range(1, 120)
+		}
+		p.end.resp = drawSend(g, w, &midx, false, 0)
+		p.end.resp.mode = []int{modeRespond, modeStall, modeMute}[g.Weighted(3, 1, 1)]
+	}
 	p.longAdv = g.Chance(1, 8)
 	p.trim = g.Bool()
 	p.finalObs = g.Bool()
@@ -553,6 +588,10 @@ type exec struct {
 	muxFull      *msmux.MultistreamMuxer[protocol.ID]
 	muxNoID      *msmux.MultistreamMuxer[protocol.ID]
 	phaseB       bool
+	endPhase     bool
+	endFire      func()
+	endConns     []*bconn
+	endPending   int
 	honestPushed bool
 	quiet        bool // past the first quiescent check: closes from here on race with nothing
 	fired        int
@@ -1036,6 +1075,9 @@ func run(t *testing.T, tape *simrt.Tape) *common.Outcome {
 	for i, a := range pl.acts {
 		o.Logf("action %d: %s (yields %d)", i, a, a.yields)
 	}
+	if e := pl.end; e.kind != 0 {
+		o.Logf("end of run: %s while %d new byz connections arrive (dial yields %v; close at I/O call %d of the first one / after %d yields); identify response: %s", []string{"", "IDService().Close()", "Host.Close()"}[e.kind], len(e.dials), e.dials, e.closeIO, e.closeY, e.resp)
+	}
 
 	res := simrt.Run(t, simrt.Config{MaxSteps: 3000000, IdleLimit: 24 * time.Hour, TraceCap: 200000}, tape.S, func() { x.main(tape) })
 	o.Sched = res
@@ -1089,6 +1131,10 @@ func (x *exec) main(tape *simrt.Tape) {
 		rp := &rawPair{obsEnd: obsEnd}
 		idx := len(x.raws)
 		x.raws = append(x.raws, rp)
+		if x.endPhase && x.endFire != nil && pl.end.closeIO > 0 {
+			rp.trig = append(rp.trig, &trigger{at: pl.end.closeIO, fire: x.endFire})
+			x.endFire = nil // first new connection only
+		}
 		for k, a := range pl.acts {
 			if a.trig.io && a.trig.creation && a.trig.conn == idx {
 				k, a := k, a
@@ -1552,6 +1598,97 @@ func (x *exec) main(tape *simrt.Tape) {
 		if oc.waitTimedOut || !oc.waitReleased {
 			o.Violate("C13/identify-wait-not-released", "IdentifyWait of the observer's connection to %s did not close within %v", w.name(oc.c.RemotePeer()), identifyWaitBound)
 		}
+	}
+
+	// ---- end-of-run variant: the identify service (alone, or as part of Host.Close, which closes it BEFORE the
+	// network) goes away while new connections are still arriving. The statement's liveness clause has no exception
+	// for a closing service: every channel IdentifyWait ever returned closes within the bound, whether the first
+	// IdentifyWait for the connection (the service's own Connected handler, or the harness) came before, during or
+	// after the close. Nothing else about a closed service is asserted.
+	if pl.end.kind != 0 {
+		known := len(x.obsConns)
+		x.endPhase = true
+		closeStarted := false
+		x.endFire = func() {
+			if closeStarted {
+				return
+			}
+			closeStarted = true
+			x.endPending++
+			simrt.GoNamed("c13-end-close", func() {
+				defer func() { x.endPending-- }()
+				if pl.end.kind == 1 {
+					x.logf("  [%d] observer: IDService().Close()", simrt.Stamp())
+					O.Host.IDService().Close()
+					o.Fault("identify-service-closed-while-connections-arrive")
+				} else {
+					x.logf("  [%d] observer: Host.Close()", simrt.Stamp())
+					closeO()
+					o.Fault("host-closed-while-connections-arrive")
+				}
+				x.logf("  [%d] close returned", simrt.Stamp())
+			})
+		}
+		fire := x.endFire
+		for i, y := range pl.end.dials {
+			bc := &bconn{idx: 100 + i, ready: make(chan struct{}), resp: pl.end.resp}
+			x.endConns = append(x.endConns, bc)
+			x.endPending++
+			simrt.GoNamed(fmt.Sprintf("c13-end-dial%d", i), func() {
+				defer func() { x.endPending-- }()
+				for k := 0; k < y; k++ {
+					simrt.Yield("c13-position")
+				}
+				ctx, cancel := context.WithTimeout(context.Background(), 20*time.Second)
+				cc, err := B.Tpt.Dial(ctx, O.Addr, w.obs.id)
+				cancel()
+				if err != nil {
+					bc.failed = true
+					x.logf("  end dial %d failed (observer closing)", i)
+					return
+				}
+				bc.raw, bc.local, bc.remote = cc, cc.LocalMultiaddr(), cc.RemoteMultiaddr()
+				simrt.GoNamed(fmt.Sprintf("byz-accept%d", bc.idx), func() { x.acceptLoop(bc) })
+			})
+		}
+		if pl.end.closeIO == 0 {
+			x.endPending++
+			simrt.GoNamed("c13-end-closer-position", func() {
+				defer func() { x.endPending-- }()
+				for k := 0; k < pl.end.closeY; k++ {
+					simrt.Yield("c13-position")
+				}
+				fire()
+			})
+		}
+		settle(identifyWaitBound + 10*time.Second)
+		if !closeStarted {
+			fire() // the I/O position was never reached: close now, with the new connections established
+			settle(identifyWaitBound + 10*time.Second)
+		}
+		if x.endPending != 0 {
+			o.Trouble = fmt.Sprintf("%d end-of-run tasks still running", x.endPending)
+			return
+		}
+		judge := func(when string) {
+			for _, oc := range x.obsConns[known:] {
+				if oc.waitStarted && (oc.waitTimedOut || !oc.waitReleased) {
+					o.Violate("C13/identify-wait-not-released/service-closing", "%s: IdentifyWait of a connection from %s that reached the observer around %s did not close within %v (connected [%d], disconnected [%d])", when, w.name(oc.c.RemotePeer()), []string{"", "IDService().Close()", "Host.Close()"}[pl.end.kind], identifyWaitBound, oc.connected, oc.disconnected)
+				}
+			}
+		}
+		judge("after the close")
+		if n := len(x.obsConns) - known; n > 0 {
+			o.Probe("connection-admitted-around-service-close")
+		}
+		// the harness itself asks (again, or for the first time in the lazy runs) after the close has returned
+		x.startWaiters()
+		settle(identifyWaitBound + 10*time.Second)
+		judge("asked after the close returned")
+		for _, bc := range x.endConns {
+			bc.close()
+		}
+		settle(time.Second)
 	}
 	x.summarise()
 }
